@@ -166,6 +166,52 @@ def fee_on_route(rnd, n, sid="F"):
     return out
 
 
+def gas_tokens(rnd, n, sid="GT"):
+    """transactions of the ledger and coin-registry kinds whose commission is paid in the token TOKB through its order-free pool with the base
+    coin (world W5), several per block so that the pool moves between them, with gas prices and payloads"""
+    out = []
+    users = USERS
+    for k in range(n):
+        steps = []
+        tid = 0
+        created = []
+        for b in range(rnd.randint(2, 4)):
+            txs = []
+            for _ in range(rnd.randint(1, 4)):
+                tid += 1
+                a = rnd.choice(users)
+                t = {"id": "t%d" % tid, "from": a, "check": True, "gasCoin": "TOKB"}
+                r = rnd.random()
+                if r < 0.35:
+                    t.update(type="Send", args={"coin": rnd.choice(["BIP", "TOKA", "TOKB", "TOKB"]), "to": rnd.choice(users), "value": "%du" % rnd.choice([1, 10, 1000, 399999])})
+                elif r < 0.5:
+                    t.update(type="Multisend", args={"list": [{"coin": rnd.choice(["BIP", "TOKB"]), "to": rnd.choice(users), "value": "%du" % rnd.randint(1, 50)} for _ in range(rnd.randint(1, 4))]})
+                elif r < 0.6:
+                    t.update(type="Lock", args={"coin": rnd.choice(["BIP", "TOKB"]), "value": "%du" % rnd.randint(1, 20), "due": "h+%d" % rnd.randint(1, 3)})
+                elif r < 0.72:
+                    sym = "GT%s%d" % ("ABCDEFGH"[k % 8], tid)
+                    t.update(type="CreateToken", args={"symbol": sym, "amount": "%du" % rnd.choice([1, 1000]), "max": "%du" % rnd.choice([1000, 10 ** 9]), "mintable": rnd.random() < 0.7, "burnable": rnd.random() < 0.7})
+                    created.append((sym, a))
+                elif r < 0.8:
+                    t.update(type="MintToken", **{"from": "a1"}, args={"coin": "TOKA", "value": "%du" % rnd.choice([1, 500, 10 ** 9])})
+                elif r < 0.88:
+                    t.update(type="BurnToken", args={"coin": rnd.choice(["TOKA", "TOKB"]), "value": "%du" % rnd.choice([1, 50])})
+                elif r < 0.94 and created:
+                    sym, own = rnd.choice(created)
+                    t.update(type="EditCoinOwner", **{"from": rnd.choice([own, own, a])}, args={"symbol": sym, "newOwner": rnd.choice(users)})
+                else:
+                    t.update(type="Send", args={"coin": "BIP", "to": rnd.choice(users), "value": "1u"})
+                if rnd.random() < 0.25:
+                    t["gasPrice"] = rnd.choice([2, 3, 10])
+                if rnd.random() < 0.2:
+                    t["payload"] = rnd.choice([1, 10, 200])
+                txs.append(t)
+            steps.append({"op": "block", "txs": txs})
+        steps.append({"op": "skip", "n": 2})
+        out.append({"id": "%s%d" % (sid, k), "world": "W5", "family": "markets", "steps": steps})
+    return out
+
+
 def from_pool_model(raw):
     """behaviours of MCPools.tla (amounts in pip) -> transactions on the pair PZERO/PONE of world WP, one per block"""
     out = []
